@@ -217,9 +217,35 @@ def check(an: Analysis) -> None:
                 ob.fail(mf, lp, "nested scopes are filtered while folding")
         if dotted(src) != "self._nested":
             ob.fail(mf, lp, "the fold does not run over self._nested in creation order")
-    base = [n for n in mf.own_nodes() if isinstance(n, (ast.Assign, ast.AnnAssign)) and isinstance(n.targets[0] if isinstance(n, ast.Assign) else n.target, ast.Name) and "attr:self._metrics" in dm.of(n.value)]
+    base = [n for n in mf.own_nodes() if isinstance(n, (ast.Assign, ast.AnnAssign)) and isinstance(n.targets[0] if isinstance(n, ast.Assign) else n.target, ast.Name) and n.value is not None and any(dotted(x) == "self._metrics" for x in ast.walk(n.value))]
     if not base:
         ob.fail(mf, None, "the merged view does not start from the scope's own recorded values")
+    for b in base:
+        v = unwrap(b.value)
+        fresh = (
+            (isinstance(v, ast.Call) and an.callee(mf, v) in ("copy.copy", "builtins.dict", "copy.deepcopy") and len(v.args) == 1)
+            or (isinstance(v, ast.Call) and isinstance(v.func, ast.Attribute) and v.func.attr == "copy" and dotted(v.func.value) == "self._metrics")
+            or (isinstance(v, ast.Dict) and any(k is None for k in v.keys))
+            or isinstance(v, ast.DictComp)
+        )
+        if not fresh:
+            ob.fail(mf, b, "the merged view is computed in the scope's own store: nested values are folded into self._metrics (read()/metrics() then report nested records, repeated views fold them again)")
+    smq = prog.cls(SM).qualname
+    for fi in prog.functions.values():
+        for n in fi.own_nodes():
+            tg = []
+            if isinstance(n, (ast.Assign, ast.AugAssign, ast.Delete)):
+                tg = n.targets if isinstance(n, (ast.Assign, ast.Delete)) else [n.target]
+            for t in tg:
+                base_ = t.value if isinstance(t, ast.Subscript) else None
+                if isinstance(base_, ast.Attribute) and base_.attr == "_metrics":
+                    ty = prog.expr_type(fi, base_.value)
+                    if ty is not None and ty.name == smq and fi is not srec:
+                        ob.fail(fi, n, "ScopeMetrics._metrics is written outside ScopeMetrics.record")
+            if isinstance(n, ast.Call) and isinstance(n.func, ast.Attribute) and n.func.attr in ("update", "pop", "clear", "setdefault", "popitem") and isinstance(n.func.value, ast.Attribute) and n.func.value.attr == "_metrics":
+                ty = prog.expr_type(fi, n.func.value.value)
+                if ty is not None and ty.name == smq:
+                    ob.fail(fi, n, f"ScopeMetrics._metrics.{n.func.attr}() removes or rewrites recorded values outside the record fold")
 
     # ------------------------------------------------------------------ C10.6 tasks finished before metrics are finished
     sa = prog.fn("context.access.ScopeContext.__aexit__")
